@@ -206,7 +206,7 @@ PROPS = {
               ops=["CliRun"], exhaustive=True),
     "C13": _p("model_checking", ["strings"], ["C13."],
               "every Unicode scalar value as a one-character string through every text constructor of the five types (run-length encoded verdicts, judged element by element in TLA+), every 16-bit unit and every 32-bit value < 0x120000 through the byte-level constructors, hand-built and random byte strings (odd lengths, lone/paired surrogates, > U+10FFFF), random multi-character strings with planted outsiders, placement of sampled accepted values in names / alternative names with decoding; distinct by event arguments",
-              ops=["StringRuns", "StringBytes", "StringMulti", "StringPlace"], exhaustive=False),
+              ops=["StringRuns", "StringBlock", "StringBytes", "StringMulti", "StringPlace"], exhaustive=False),
     "C10": _p("exploration", ["panics", "cert", "time", "csr", "crl", "csrparse", "keys", "strings"], ["C10."],
               "matrix enumerated by MC_Outcome: 4 generation functions x 52 hostile-but-constructible value classes (non-ASCII / NUL / empty / 64 KiB text in String-typed IA5 positions; OID lists [], [1], [3,1], [1,40], [2,2^64-1], 1000 arcs in every OID-carrying position; years -9999, -1, 0, 9999 and offsets that push the UTC year to -1 / 10000; empty and 1 MiB serials / CRL numbers / custom contents; malformed CSR attribute values) plus the 5 documented panics; 19 parser entry points x 6 byte-string classes over valid seeds (rcgen and OpenSSL certificates, CSRs, PKCS#8/SEC1/PKCS#1 keys, SPKIs, PEM texts): substitution of 8 values / truncation / insertion-deletion at every position (strided in quick), TLV-aware mutations with length repair reaching into extension values, random bytes; coverage predicates require every cell; C10.no_panic is also evaluated on every event of the certificate, time, CSR, CRL, CSR-parsing, key and string pipelines; distinct by (function, class) cell and event arguments",
               ops=None, exhaustive=False),
